@@ -60,12 +60,32 @@ func newEvalModel(w *World, e *Engine) *evalModel {
 		return m
 	}
 	// EVAL must be the function stored in MalFunc.Eval by the fn special form
+	// (by EVAL itself or by a function of its package that builds the closure for it)
 	stored := false
-	for _, b := range m.EVAL.Blocks {
-		for _, in := range b.Instrs {
-			if st, ok := in.(*ssa.Store); ok {
-				if fa, ok := st.Addr.(*ssa.FieldAddr); ok && fieldName(fa.X.Type(), fa.Field) == "Eval" && st.Val == ssa.Value(m.EVAL) {
-					stored = true
+	for _, f := range w.Funcs {
+		if f.Pkg != m.EVAL.Pkg || isTestFunc(w, f) {
+			continue
+		}
+		for _, b := range f.Blocks {
+			for _, in := range b.Instrs {
+				if st, ok := in.(*ssa.Store); ok {
+					if fa, ok := st.Addr.(*ssa.FieldAddr); ok && fieldName(fa.X.Type(), fa.Field) == "Eval" {
+						if st.Val == ssa.Value(m.EVAL) {
+							stored = true
+						}
+						// ... or a function of EVAL's own signature that calls EVAL (a wrapper around it: what it
+						// passes on is the business of the scope and context rules)
+						var wf *ssa.Function
+						switch x := st.Val.(type) {
+						case *ssa.MakeClosure:
+							wf, _ = x.Fn.(*ssa.Function)
+						case *ssa.Function:
+							wf = x
+						}
+						if wf != nil && wf != m.EVAL && types.Identical(wf.Signature.Params(), m.EVAL.Signature.Params()) && callsFn(wf, m.EVAL) {
+							stored = true
+						}
+					}
 				}
 			}
 		}
@@ -755,6 +775,16 @@ func (c *classifier) compute(v ssa.Value) cls {
 		case *ssa.Call:
 			if x.Index == 0 {
 				return c.callResult(t)
+			}
+			// a further result of a function that only takes forms apart (the clauses of a try form)
+			if callee := t.Call.StaticCallee(); callee != nil && m.formSplitter(callee) {
+				r := clsNil
+				for _, b := range callee.Blocks {
+					if ret, ok := b.Instrs[len(b.Instrs)-1].(*ssa.Return); ok && x.Index < len(ret.Results) && b != callee.Recover {
+						r = joinCls(r, c.of(resolveRet(ret.Results[x.Index])))
+					}
+				}
+				return r
 			}
 		case *ssa.Next:
 			// element of a map / string being ranged over
